@@ -8,12 +8,16 @@ package main
 // for any backend.
 
 import (
+	"context"
 	"encoding/json"
+	"errors"
 	"fmt"
 	"strings"
 	"time"
 	"unsafe"
 
+	"github.com/google/inverting-proxy/app/cache"
+	"github.com/google/inverting-proxy/app/store"
 	"github.com/google/inverting-proxy/app/types"
 	"github.com/google/inverting-proxy/zz_verif/vae"
 	"github.com/google/inverting-proxy/zz_verif/vs"
@@ -139,6 +143,83 @@ func c18HTTPScenarios(th bool) []vx.Scenario {
 					out = append(out, c18HTTP(m, false, d, sh))
 				}
 			}
+		}
+	}
+	return out
+}
+
+// c18LookupFault: the user has a backend of his own for the path and a shared backend matches too; the
+// k-th service call of the lookup fails. The answer may be the user's backend or a failure (404 / 5xx),
+// never the shared backend: the fallback is for users without a match, not for lookups that failed.
+func c18LookupFault(ownLive bool, k int) vx.Scenario {
+	return vx.Scenario{Name: fmt.Sprintf("c18/lookup-fault/own-live=%v/service-call-%d-fails", ownLive, k), PB: 0, Single: true, MaxSteps: 400000, MaxTime: 30 * time.Minute,
+		Setup: func(s *vs.Sched) func(*vs.Result) vx.Exec {
+			var got string
+			var gerr error
+			var res *reply
+			var pendingShared, nops int
+			s.Thread("driver", func() {
+				vae.Reset()
+				st := cache.NewCachingStore(store.NewPersistentStore())
+				ctx := context.Background()
+				st.AddBackend(ctx, &types.Backend{BackendID: "own", BackendUser: a1, EndUser: u1, PathPrefixes: []string{"/"}})
+				st.AddBackend(ctx, &types.Backend{BackendID: "shared", BackendUser: a2, EndUser: "allUsers", PathPrefixes: []string{"/"}})
+				if ownLive {
+					st.ListPendingRequests(ctx, "own")
+				}
+				st.ListPendingRequests(ctx, "shared")
+				fault := func(op vae.Op) error {
+					i := nops
+					nops++
+					if i == k {
+						return errors.New("injected: datastore timeout")
+					}
+					return nil
+				}
+				vae.W().Fault = fault
+				got, gerr = st.LookupBackend(ctx, u1, "/page")
+				vae.W().Fault = nil
+				// and through the handler: the request must not end up in the shared backend's queue
+				nops = 0
+				before := storedRequests()
+				vae.W().Fault = fault
+				done := false
+				vs.Go(func() {
+					res = call(endUser(u1), "POST", "/page", nil, []byte("x"))
+					done = true
+				})
+				vtime.Sleep(2 * time.Second)
+				vae.W().Fault = nil
+				_ = done
+				ids, _ := st.ListPendingRequests(ctx, "shared")
+				pendingShared = len(ids)
+				_ = before
+			})
+			return func(r *vs.Result) vx.Exec {
+				var x vx.Exec
+				base(r, &x)
+				x.Obs = fmt.Sprintf("own-live=%v call %d fails: lookup %q err=%v; shared queue %d", ownLive, k, got, gerr != nil, pendingShared)
+				if gerr == nil && got == "shared" {
+					x.Violations = append(x.Violations, fmt.Sprintf("FALLBACK-ON-FAILURE: %s has a backend of his own for /page, but with service call %d of the lookup failing he was routed to the shared backend", u1, k))
+				}
+				if pendingShared > 0 {
+					x.Violations = append(x.Violations, fmt.Sprintf("FALLBACK-ON-FAILURE: with service call %d failing, %s's request was queued for the shared backend although he has a backend of his own for the path", k, u1))
+				}
+				_ = res
+				return x
+			}
+		}}
+}
+
+func c18FaultScenarios(th bool) []vx.Scenario {
+	var out []vx.Scenario
+	n := 6
+	if th {
+		n = 10
+	}
+	for _, live := range []bool{true, false} {
+		for k := 0; k < n; k++ {
+			out = append(out, c18LookupFault(live, k))
 		}
 	}
 	return out
